@@ -627,4 +627,73 @@ theorem C20_xep_spec_unique (i : Info) (wf : i.WF) (s : Bytes) (h : XepSpec i s)
     rw [e]
     rfl
 
+/-! ### Collision freedom (the converse of permutation invariance)
+
+`C20_perm_invariant_*` say that equal sets give equal bytes.  The reason XEP-0115 hashes this
+string at all is the converse: different sets must give different bytes, or a peer could be
+served the capabilities of another entity under the same `ver`.  For the feature section this
+holds exactly when no feature contains the delimiter `<` (XEP-0115 §5.4 item 3 declares such
+input ill-formed); `C20_features_collide_with_lt` shows the hypothesis cannot be dropped.  The
+tie to the code is the one of the whole file: the harness compares `verImpl` with the bytes the
+real `AppendHash` writes into a recording hash (its word universe contains `"a<"` and `"<"`). -/
+
+/-- a string without the delimiter `<` (XEP-0115 §5.4 item 3.1/3.3: such input is ill-formed) -/
+def LtFree (b : Bytes) : Prop := (0x3c : UInt8) ∉ b
+
+theorem split_at_lt (a b r r' : Bytes) (ha : LtFree a) (hb : LtFree b)
+    (h : a ++ lt ++ r = b ++ lt ++ r') : a = b ∧ r = r' := by
+  induction a generalizing b with
+  | nil =>
+    cases b with
+    | nil => simpa [lt] using h
+    | cons y ys =>
+      simp [lt] at h
+      exact absurd h.1.symm (by intro e; apply hb; simp [e])
+  | cons x xs ih =>
+    cases b with
+    | nil =>
+      simp [lt] at h
+      exact absurd h.1 (by intro e; apply ha; simp [e])
+    | cons y ys =>
+      simp at h
+      have := ih ys (by intro m; apply ha; simp [m]) (by intro m; apply hb; simp [m])
+        (by simpa using h.2)
+      exact ⟨by rw [h.1, this.1], this.2⟩
+
+theorem renderFeat_flatMap_inj (l l' : List Bytes) (hl : ∀ f ∈ l, LtFree f) (hl' : ∀ f ∈ l', LtFree f)
+    (h : l.flatMap renderFeat = l'.flatMap renderFeat) : l = l' := by
+  induction l generalizing l' with
+  | nil =>
+    cases l' with
+    | nil => rfl
+    | cons y ys => simp [renderFeat, lt] at h
+  | cons x xs ih =>
+    cases l' with
+    | nil => simp [renderFeat, lt] at h
+    | cons y ys =>
+      simp only [List.flatMap_cons, renderFeat] at h
+      have hs := split_at_lt x y _ _ (hl x (by simp)) (hl' y (by simp)) h
+      rw [hs.1, ih ys (fun f m => hl f (by simp [m])) (fun f m => hl' f (by simp [m])) hs.2]
+
+/-- **Collision freedom of the feature section** (the converse of `C20_perm_invariant_features`):
+two feature lists of `<`-free strings that are written as the same bytes are the same multiset. -/
+theorem C20_features_injective (f₁ f₂ : List Bytes) (h₁ : ∀ f ∈ f₁, LtFree f) (h₂ : ∀ f ∈ f₂, LtFree f)
+    (h : verImpl ⟨[], f₁, []⟩ = verImpl ⟨[], f₂, []⟩) : f₁.Perm f₂ := by
+  simp only [verImpl, List.mergeSort_nil, List.flatMap_nil, List.nil_append, List.append_nil] at h
+  have p₁ : (sortStrings f₁).Perm f₁ := List.mergeSort_perm _ _
+  have p₂ : (sortStrings f₂).Perm f₂ := List.mergeSort_perm _ _
+  have e := renderFeat_flatMap_inj _ _ (fun f m => h₁ f (p₁.mem_iff.mp m)) (fun f m => h₂ f (p₂.mem_iff.mp m)) h
+  exact p₁.symm.trans (e ▸ p₂)
+
+/-- the hypothesis is needed: with a `<` inside a feature two different feature sets collide
+(the reason XEP-0115 §5.4 declares such a reply ill-formed) -/
+theorem C20_features_collide_with_lt :
+    verImpl ⟨[], [[0x61, 0x3c, 0x62]], []⟩ = verImpl ⟨[], [[0x61], [0x62]], []⟩ ∧
+    ¬ ([[0x61, 0x3c, 0x62]] : List Bytes).Perm [[0x61], [0x62]] := by
+  refine ⟨?_, fun p => ?_⟩
+  · simp [verImpl, mergeSort_pair, lexLe, sortStrings, renderFeat, lt]
+  · have := p.length_eq
+    simp at this
+
+example : (∀ f ∈ ([[0x62], [0x61]] : List Bytes), LtFree f) := by simp [LtFree]
 end XmppModel.Props.C20
